@@ -179,6 +179,7 @@ type Config struct {
 	SolverKind   string
 	TimeoutMs    int
 	Deadline     time.Time
+	Solver2Kind  string
 	NoFastPath   bool
 	CrossCheck   bool
 	WitnessMode  bool // treat verifReach as assert(false) to extract reachability witnesses
@@ -220,6 +221,9 @@ type Report struct {
 	Races              map[string]int
 	MaxPending         int
 	FastDecided        int64
+	Solver2Queries     int64
+	Solver2Unknown     int64
+	Solver2Time        time.Duration
 	UnlistedViolations int
 	KnownViolations    int
 	Witnesses          map[string]Violation
@@ -266,6 +270,17 @@ func Explore(p *Program, cfg Config) *Report {
 			}
 			defer solver.Close()
 			ex := NewExec(p, solver)
+			if cfg.Solver2Kind != "" {
+				s2, err := sym.NewSolver(cfg.Solver2Kind, 3000)
+				if err == nil {
+					ex.solver2 = s2
+					defer s2.Close()
+				} else {
+					mu.Lock()
+					rep.Inconclusive["cannot start second solver: "+err.Error()]++
+					mu.Unlock()
+				}
+			}
 			ex.Tier = cfg.Tier
 			if cfg.MaxSteps > 0 {
 				ex.MaxSteps = cfg.MaxSteps
@@ -381,6 +396,11 @@ func Explore(p *Program, cfg Config) *Report {
 				rep.FuncInstr[name] = p.info(f).nInstr
 			}
 			rep.FastDecided += ex.FastDecided
+			rep.Solver2Queries += ex.Solver2Queries
+			rep.Solver2Unknown += ex.Solver2Unknown
+			if ex.solver2 != nil {
+				rep.Solver2Time += ex.solver2.Time
+			}
 			for name, n := range ex.intrinsicsSeen {
 				rep.Funcs["intrinsic:"+name] += n
 			}
